@@ -418,6 +418,34 @@ def oracle_c13(case):
     return None
 
 
+def oracle_c13_compiled(case):
+    """dict_keys_regex accepts compiled patterns: their flags decide, and equal pattern texts with different flags stay different"""
+    import re as _re
+    which, = case
+    samples = [{"f": {"User_ID": 1, "ORDER_id": 2}, "g": {"user_id": 1, "order_id": 2}, "h": {"Ab": 1}}]
+    pats = {"ignorecase": [_re.compile(r"^[a-z]+_id$", _re.I)], "plain": [_re.compile(r"^[a-z]+_id$")],
+            "both": [_re.compile(r"^[a-z]+_id$"), _re.compile(r"^[a-z]+_id$", _re.I)],
+            "verbose": [_re.compile(r"^ [a-z]+ _id $", _re.X)]}[which]
+    gen = MetadataGenerator(str_types_registry=fresh_registry(), dict_keys_regex=list(pats))
+    meta = gen.generate(*samples)
+    want = {"ignorecase": {"f": True, "g": True}, "plain": {"f": False, "g": True}, "both": {"f": True, "g": True}, "verbose": {"f": False, "g": True}}[which]
+    for k, is_map in want.items():
+        got = isinstance(strip_opt(meta[k]), DDict)
+        if got != is_map:
+            return f"compiled pattern set {which!r}: field {k} {'should' if is_map else 'should not'} be Dict[str, T], got {type_repr(meta[k], False)}"
+    if isinstance(strip_opt(meta["h"]), DDict):
+        return f"compiled pattern set {which!r}: field h matches no pattern but became a mapping"
+    return None
+
+
+@bounded("C13", "compiled_patterns_keep_their_flags")
+def c13_compiled(tier, seed):
+    r = run_cases([("ignorecase",), ("plain",), ("both",), ("verbose",)], oracle_c13_compiled, "c13_compiled")
+    r["bound"] = "4 lists of pre-compiled patterns (IGNORECASE, none, same text with and without a flag, VERBOSE) on one object with three candidate fields"
+    r["function"] = "MetadataGenerator.__init__ / _detect_type"
+    return r
+
+
 @bounded("C13", "dict_options_enumerated")
 def c13(tier, seed):
     cases = []
@@ -432,7 +460,7 @@ def c13(tier, seed):
     return r
 
 
-ORACLES = {"c07_policy": oracle_c07_policy, "c08_late": oracle_c08_late_registration, "c01": oracle_c01, "c02": oracle_c02, "c07": oracle_c07, "c08_types": lambda i: oracle_c08_types(tuple(i)),
+ORACLES = {"c13_compiled": lambda c: oracle_c13_compiled(tuple(c)), "c07_policy": oracle_c07_policy, "c08_late": oracle_c08_late_registration, "c01": oracle_c01, "c02": oracle_c02, "c07": oracle_c07, "c08_types": lambda i: oracle_c08_types(tuple(i)),
            "c08_samples": oracle_c08_samples, "c13": lambda c: oracle_c13(tuple(c))}
 
 
